@@ -82,6 +82,11 @@ pub fn load_findings() -> Vec<Finding> {
     }
 }
 
+/// signatures of the findings listed as open for a property (tolerated so that a search can go on)
+pub fn open_signatures(prop: &str) -> Vec<String> {
+    load_findings().into_iter().filter(|f| f.property == prop && f.status == "open").map(|f| f.signature).collect()
+}
+
 /// Per-shard result, serialised by the worker and merged by the parent.
 #[derive(Clone, Debug, Default, Serialize, Deserialize)]
 pub struct ShardResult {
